@@ -579,3 +579,10 @@ MUTANTS["C10"] += [
     M("range_wraparound_string_compare", PA, "            for name in range(int(start_name), int(end_name) + 1):\n                reg = deepcopy(base_register)\n                if index is not None:\n                    reg[\"index\"] = int(index, 0)\n                reg[\"name\"] = str(name)",
       "            last = int(end_name) + (32 if end_name < start_name else 0)\n            for name in range(int(start_name), last + 1):\n                reg = deepcopy(base_register)\n                if index is not None:\n                    reg[\"index\"] = int(index, 0)\n                reg[\"name\"] = str(name % 32)", "R10", "seeded change C10"),
 ]
+
+MUTANTS["C02"] += [
+    M("balance_only_loaded_ports", ARCH, "                indices = [port_list.index(p) for p in ports]\n                # check if port sum", "                indices = [port_list.index(p) for p in ports]\n                indices = [i for i in indices if instruction_form.port_pressure[i] > 0]\n                if len(indices) < 2:\n                    continue\n                # check if port sum", "P7", "seeded change C02"),
+]
+MUTANTS["C01"] += [
+    M("balance_only_loaded_ports_is_feasible", ARCH, "                indices = [port_list.index(p) for p in ports]\n                # check if port sum", "                indices = [port_list.index(p) for p in ports]\n                indices = [i for i in indices if instruction_form.port_pressure[i] > 0]\n                if len(indices) < 2:\n                    continue\n                # check if port sum", "SILENT", "a subset of the micro-op's own ports: feasibility (C01) is not affected, optimality (C02-P7) is"),
+]
